@@ -51,10 +51,15 @@ def check(ctx, run):
     ev.calls["TestMemoryAllocator::alloc_memory"] = lambda o, s, *a: 5000
     try:
         ev.run_blocks(cr.entry, max_steps=500)
-        sizes = [ev.env.get("@5000[%d].size_" % i) for i in range(ncls)]
-        heads = [(ev.env.get("@5000[%d].freeMemoryHead_" % i), ev.env.get("@5000[%d].usedMemoryHead_" % i)) for i in range(ncls)]
+        # (element i of the block is written as block[i] or through a walking pointer block + i: one location, two spellings)
+        def cell(i, m):
+            return ev.env.get("@5000[%d].%s" % (i, m), ev.env.get("@%d.%s" % (5000 + i, m)))
+        sizes = [cell(i, "size_") for i in range(ncls)]
+        heads = [(cell(i, "freeMemoryHead_"), cell(i, "usedMemoryHead_")) for i in range(ncls)]
     except Unknown as u:
-        sizes, heads = ["unknown: %s" % u], []
+        raise AnalysisBroken("C18.R1: size class table could not be folded: %s" % u)
+    if any(not isinstance(s_, int) for s_ in sizes) or any(not isinstance(h_, int) for hh in heads for h_ in hh):
+        raise AnalysisBroken("C18.R1: size class table could not be folded: the class array is not written through the block the allocator returned (sizes %s)" % sizes)
     ok = all(isinstance(s, int) for s in sizes) and sizes == sorted(sizes) and len(set(sizes)) == ncls and all(h == (0, 0) for h in heads)
     run.ob("R1", "class table: %d ascending sizes, all lists start empty" % ncls, cr.site, ok, witness={"sizes": sizes, "heads": heads})
     if not ok:
